@@ -6,6 +6,7 @@ import (
 	"net/http"
 	"net/http/httptest"
 	"strings"
+	"time"
 
 	"github.com/gookit/rux"
 	"github.com/gookit/rux/pkg/handlers"
@@ -26,6 +27,8 @@ type c09Case struct {
 	PanicsMW  bool   `json:"panics_handler_middleware"`
 	Committed bool   `json:"committed_before_panic"`
 	PreStatus int    `json:"status_selected_before_panic,omitempty"` // e.g. 204 via NoContent(): selected, not committed
+	Timeout   bool   `json:"timeout_middleware,omitempty"`           // handlers.Timeout(1h) wraps the chain: it swaps c.Req and cancels the derived context in a defer
+	WrapResp  bool   `json:"wrap_resp_without_defer,omitempty"`      // a global middleware wraps c.Resp and restores it after Next() - not in a defer
 	Twice     bool   `json:"panic_request_twice"`
 }
 
@@ -76,6 +79,17 @@ func newC09Router(c c09Case) *c09Router {
 	}
 	if c.PanicsMW {
 		r.Use(handlers.PanicsHandler())
+	}
+	if c.Timeout {
+		r.Use(handlers.Timeout(time.Hour))
+	}
+	if c.WrapResp {
+		r.Use(func(ctx *rux.Context) {
+			orig := ctx.Resp
+			ctx.Resp = &wrapW{orig}
+			ctx.Next()
+			ctx.Resp = orig // skipped when a handler below panics
+		})
 	}
 	val := c09Value(c.Value)
 	mk := func(i int) rux.HandlerFunc {
@@ -295,6 +309,10 @@ func c09Gen(tier string, emit func(c09Case)) {
 									continue
 								}
 								emit(c09Case{Where: "chain", N: n, Split: sp, Pos: pos, When: when, Value: v, Hook: hk, PanicsMW: f&1 != 0, Committed: f&2 != 0, Twice: (n+pos)%2 == 0})
+								if f == 0 && vi == 1 {
+									emit(c09Case{Where: "chain", N: n, Split: sp, Pos: pos, When: when, Value: v, Hook: hk, Timeout: true})
+									emit(c09Case{Where: "chain", N: n, Split: sp, Pos: pos, When: when, Value: v, Hook: hk, WrapResp: true})
+								}
 								if f == 0 && vi == 0 {
 									// a status was selected (204 / 304 / 201) but nothing committed when the panic strikes
 									for _, ps := range []int{204, 304, 201} {
